@@ -6,5 +6,8 @@ export CARGO_NET_OFFLINE=true
 unset RUSTFLAGS
 cp /repo/Cargo.lock harness/Cargo.lock 2>/dev/null || true
 (cd harness && cargo build --release --offline)
+# second configurations: HNSW representation (C14) and scalar distance (C38)
+(cd harness && CARGO_TARGET_DIR=target-hnsw cargo build --release --offline --no-default-features --features hnsw --bin mvdrive)
+(cd harness && CARGO_TARGET_DIR=target-nosimd cargo build --release --offline --no-default-features --bin mvpure)
 if [ -f shim/Makefile ]; then make -C shim; fi
 echo "setup ok"
